@@ -163,6 +163,25 @@ def _type_tree(x, depth=0):
     return out
 
 
+def _has_frac_pow(x, depth=0):
+    if depth > 10:
+        return False
+    z = getattr(x, "z", None) if type(x).__name__ in ("Pow", "PowOperation", "Pow2") else None
+    try:
+        if z is not None and float(z) != int(z):
+            return True
+    except Exception:  # noqa: BLE001
+        return True
+    for attr in ("base",):
+        v = getattr(x, attr, None) if hasattr(type(x), attr) or attr in getattr(x, "__dict__", {}) else None
+        if v is not None and hasattr(v, "wires") and _has_frac_pow(v, depth + 1):
+            return True
+    ops = getattr(x, "operands", None) if hasattr(type(x), "operands") or "operands" in getattr(x, "__dict__", {}) else None
+    if isinstance(ops, (list, tuple)):
+        return any(_has_frac_pow(o, depth + 1) for o in ops)
+    return False
+
+
 def _same_data(qp, a, b):
     """Harness-side check that two objects really carry identical data (same pytree leaves: shapes and bytes)."""
     try:
@@ -521,6 +540,11 @@ def _one(ctx, qp, opzoo, a, mk, src, cls, info, rng):
                           mech=f"asymmetric:{kind.split('+')[0]}:{cls}")
             continue
         ctx.count(f"mutant:{kind}:{'equal' if r1 else 'unequal'}")
+        if r1 and isop and _has_frac_pow(a):
+            # the principal fractional power is discontinuous at base eigenvalue -1 (excluded from the matrix properties by
+            # their statements): no Lipschitz bound exists there
+            ctx.count("implies_matrix:fractional-pow-skipped")
+            continue
         if r1 and isop:
             # equal ⇒ same linear map up to the tolerance-implied bound
             try:
